@@ -12,10 +12,10 @@ E_UNITS = {'J/mol': 1.0, 'kJ/mol': 1e3, 'kcal/mol': 4184.0, 'cal/mol': 4.184, 'e
            'MJ/kmol': 1e3, 'mJ/mmol': 1.0, 'kJ/kmol': 1.0, 'BTU/mol': 1054.35026444, 'erg/mol': 1e-7, 'J/mmol': 1e3,
            'daJ/mol': 10.0, 'dacal/mol': 41.84, 'hJ/mol': 100.0, 'J/damol': 0.1,
            # the same units written with negative powers
-           'mJ/mol': 1e-3, 'mcal/mol': 4.184e-3, 'kJ mol^-1': 1e3, 'J kmol^-1': 1e-3, 'cal mmol^-1': 4184.0, 'eV molecule^-1': 1.602176487e-19 * 6.02214179e23, 'MJ kmol^-1': 1e3}
+           'W h/mol': 3600.0, 'kW h/mol': 3.6e6, 'W min/mol': 60.0, 'mJ/mol': 1e-3, 'mcal/mol': 4.184e-3, 'kJ mol^-1': 1e3, 'J kmol^-1': 1e-3, 'cal mmol^-1': 4184.0, 'eV molecule^-1': 1.602176487e-19 * 6.02214179e23, 'MJ kmol^-1': 1e3}
 S_UNITS = {'J/(mol K)': 1.0, 'J/(mol*K)': 1.0, 'J/mol/K': 1.0, 'cal/(mol K)': 4.184, 'cal/(mol*K)': 4.184, 'kJ/(mol K)': 1e3,
            'kcal/(kmol K)': 4.184, 'mJ/(mol mK)': 1.0, 'J/(mol kK)': 1e-3, 'eV/(molecule K)': 1.602176487e-19 * 6.02214179e23,
-           'daJ/(mol K)': 10.0, 'J/(mol daK)': 0.1, 'mJ/(mol K)': 1e-3, 'mcal/(mol K)': 4.184e-3, 'mcal/(mol*K)': 4.184e-3, 'mJ/mol/K': 1e-3, 'J mol^-1 K^-1': 1.0, 'J kmol^-1 K^-1': 1e-3, 'cal mol^-1 mK^-1': 4184.0, 'kJ kmol^-1 K^-1': 1.0}
+           'daJ/(mol K)': 10.0, 'J/(mol daK)': 0.1, 'mW h/(mol K)': 3.6, 'W s/(mol K)': 1.0, 'mJ/(mol K)': 1e-3, 'mcal/(mol K)': 4.184e-3, 'mcal/(mol*K)': 4.184e-3, 'mJ/mol/K': 1e-3, 'J mol^-1 K^-1': 1.0, 'J kmol^-1 K^-1': 1e-3, 'cal mol^-1 mK^-1': 4184.0, 'kJ kmol^-1 K^-1': 1.0}
 T_UNITS = {'K': 1.0, 'mK': 1e-3, 'kK': 1e3, 'hK': 100.0, 'cK': 0.01, 'daK': 10.0, 'dK': 0.1}
 GROUPS = ['C(C)(H)3', 'C(C)2(H)2', 'O(C)(H)', 'CO(C)(H)']
 
